@@ -557,6 +557,74 @@ def r04_8(rep: Report) -> None:
                  're-encoded short', fn)
 
 
+# ---------------------------------------------------------------- R04.10 raw header of a lazily held box
+def r04_10(rep: Report) -> None:
+    """a box that is loaded lazily is kept as raw bytes: header bytes collected by the header parser
+    (`_buffer`), then the payload.  Those bytes are written back verbatim, or parsed again after skipping
+    `header_size` bytes - so `_buffer` must hold EVERY byte the header parser consumed (8 bytes, the 64-bit
+    size when size == 1, the 16-byte extended type of a uuid box).  Per path through Mp4Atom.parse: every value
+    read from the source before the header dict is returned is in the list that `_buffer` is joined from."""
+    from ..flow import Disjunctive, each_exit
+    rid = 'R04.10'
+    tree = rep.repo.tree(MP4)
+    cls = need(find_class(tree, 'Mp4Atom'), 'Mp4Atom')
+    fn = need(find_func(cls, 'parse'), 'Mp4Atom.parse')
+    construct = f'{MP4}::Mp4Atom.parse'
+    src = fn.args.args[1].arg if len(fn.args.args) > 1 else 'src'
+
+    def reads(st):
+        if isinstance(st, ast.Assign) and len(st.targets) == 1 and isinstance(st.targets[0], ast.Name) \
+                and isinstance(st.value, ast.Call) and call_name(st.value) == f'{src}.read':
+            return st.targets[0].id
+        return None
+
+    def gen(st):
+        out = []
+        r_ = reads(st)
+        if r_:
+            out.append(('read', r_))
+        for c in ast.walk(st):
+            if isinstance(c, ast.Call) and isinstance(c.func, ast.Attribute) and c.func.attr in ('append', 'extend') \
+                    and isinstance(c.func.value, ast.Name):
+                for a in c.args:
+                    for x in ast.walk(a):
+                        if isinstance(x, ast.Name):
+                            out.append(('kept', c.func.value.id, x.id))
+        if isinstance(st, (ast.Assign, ast.AugAssign)):
+            tg = st.targets[0] if isinstance(st, ast.Assign) else st.target
+            if isinstance(tg, ast.Name) and isinstance(st.value, (ast.List, ast.Tuple, ast.BinOp, ast.Name)):
+                for x in ast.walk(st.value):
+                    if isinstance(x, ast.Name) and x.id != tg.id:
+                        out.append(('kept', tg.id, x.id))
+        return out
+    results: list[tuple[ast.AST, set, str]] = []
+
+    def on_exit(kind, st, state):
+        if kind != 'return' or st is None or not isinstance(st.value, ast.Dict):
+            return
+        for k, v in zip(st.value.keys, st.value.values):
+            if isinstance(k, ast.Constant) and k.value == '_buffer':
+                holders = {x.id for x in ast.walk(v) if isinstance(x, ast.Name)}
+                # closure: what the holders hold
+                kept = set(holders)
+                for _ in range(4):
+                    kept |= {f[2] for f in state if f[0] == 'kept' and f[1] in kept}
+                missing = {f[1] for f in state if f[0] == 'read'} - kept
+                results.append((st, missing, norm(v)))
+    Flow(Disjunctive(MustFacts(gen), cap=256), on_exit=each_exit(on_exit)).run(fn, [frozenset()])
+    if not results:
+        raise AnalysisError('Mp4Atom.parse: no header dict with a `_buffer` entry is returned')
+    bad = [(st, m, v) for st, m, v in results if m]
+    if bad:
+        st, m, v = bad[0]
+        rep.fail(rid, construct, 'raw header holds every byte read',
+                 f'on a path through the header parser the bytes read into {sorted(m)} are consumed (they count towards '
+                 f'header_size) but are not part of `_buffer` = `{v[:60]}`: a lazily held box of that kind (uuid: the PIFF '
+                 'sample encryption box; a box with a 64-bit size) is written back short and re-parsed at the wrong offset', st)
+    else:
+        rep.ok(rid, construct, 'raw header holds every byte read', f'{len(results)} path(s)')
+
+
 # ---------------------------------------------------------------- R04.9 expandable descriptor size
 DESCRIPTOR_SIZES = (0, 1, 0x7f, 0x80, 0x81, 200, 0x3fff, 0x4000, 0x12345, 0x1fffff, 0x200000, 0xfffffff)
 
@@ -669,6 +737,7 @@ def analyse(rep: Report) -> None:
     rep.rule('R04.6', 'FieldReader.read() result is never used as a value', floor=1)
     rep.rule('R04.7', 'a bit-level FieldWriter is flushed once, by the function that made it', floor=2)
     rep.rule('R04.8', 'the avcC extension block is read for every H.264 profile that carries one', floor=1)
+    rep.rule('R04.10', 'the raw header kept for a lazily loaded box holds every byte the header parser consumed', floor=1)
     rep.rule('R04.9', 'descriptor size bytes written by Descriptor.encode are read back as the same size', floor=12)
     idx = Index(rep.repo, 'dashlive')
     layout_rule(rep, idx, 'R04.1', [MP4], 44)
@@ -679,6 +748,7 @@ def analyse(rep: Report) -> None:
     r04_7(rep, idx)
     r04_8(rep)
     r04_9(rep)
+    r04_10(rep)
     # registry: every @fourcc class has a pair or inherits one
     mod = idx.by_rel[MP4]
     reg = [c for c in mod.classes.values()
